@@ -289,10 +289,21 @@ func (v *Value) GetMember(member Value) (*Cell, error) {
 			return v.Proto.GetMember(member)
 		}
 		index := int(*member.Num)
+
+		var char Value
 		if index < 0 || index >= len(*v.Str) {
-			return NewCell(NewValue(nil)), nil
+			char = NewValue(nil)
+		} else {
+			char = NewString(string((*v.Str)[index]))
 		}
-		return NewCell(NewString(string((*v.Str)[index]))), nil
+
+		// the character is a copy, the string can't be changed through it. like a
+		// speculative object it remembers the parent and key it came from, so that
+		// assigning to it is an error instead of being silently lost
+		fIndex := float64(index)
+		char.Num = &fIndex
+		char.ParentObj = v
+		return NewCell(char), nil
 	default:
 		if v.Proto != nil {
 			return v.Proto.GetMember(member)
